@@ -37,6 +37,117 @@ type item struct {
 	kind string
 }
 
+// ---------------------------------------------------------------- encoder option lists
+
+// optSpec is one EncoderOption value: which fields it sets (-1 = not set).
+type optSpec struct{ ascii, prov int }
+
+// splitOpts spreads an intended configuration over 1..3 option values, with overridden earlier
+// settings and options that set nothing, so that the merge logic of NewEncoder is exercised.
+func splitOpts(r *vh.Rng, ascii bool, prov int) []optSpec {
+	a := 0
+	if ascii {
+		a = 1
+	}
+	n := 1 + r.Intn(3)
+	os := make([]optSpec, n)
+	for i := range os {
+		os[i] = optSpec{-1, -1}
+	}
+	ai, pi := r.Intn(n), r.Intn(n)
+	if ascii || r.Bool() {
+		os[ai].ascii = a
+		for i := 0; i < ai; i++ { // earlier, overridden values
+			if r.Bool() {
+				os[i].ascii = 1 - a
+			}
+		}
+	}
+	if prov >= 0 {
+		os[pi].prov = prov
+		for i := 0; i < pi; i++ {
+			if r.Bool() {
+				os[i].prov = 1 - prov
+			}
+		}
+	}
+	return os
+}
+
+func wireOpts(os []optSpec) string {
+	var sb strings.Builder
+	for _, o := range os {
+		a, p := "-", "-"
+		if o.ascii >= 0 {
+			a = fmt.Sprint(o.ascii)
+		}
+		if o.prov >= 0 {
+			p = fmt.Sprint(o.prov)
+		}
+		sb.WriteString("a" + a + "p" + p + ";")
+	}
+	return sb.String()
+}
+
+func nqOptions(os []optSpec, provs []blanknodes.StringProvider) []nquads.EncoderOption {
+	var out []nquads.EncoderOption
+	for _, o := range os {
+		c := nquads.EncoderConfig{}
+		if o.ascii >= 0 {
+			c = c.SetASCII(o.ascii == 1)
+		}
+		if o.prov >= 0 {
+			c = c.SetBlankNodeStringProvider(provs[o.prov])
+		}
+		out = append(out, c)
+	}
+	return out
+}
+
+func ntOptions(os []optSpec, provs []blanknodes.StringProvider) []ntriples.EncoderOption {
+	var out []ntriples.EncoderOption
+	for _, o := range os {
+		c := ntriples.EncoderConfig{}
+		if o.ascii >= 0 {
+			c = c.SetASCII(o.ascii == 1)
+		}
+		if o.prov >= 0 {
+			c = c.SetBlankNodeStringProvider(provs[o.prov])
+		}
+		out = append(out, c)
+	}
+	return out
+}
+
+type fixedProv string
+
+func (f fixedProv) GetBlankNodeString(rdf.BlankNode) string { return string(f) }
+
+// goEffectiveOpts observes what NewEncoder compiled from an option list: is a non-ASCII rune escaped,
+// which provider labels the node. Result in the driver's form "<ascii> <prov|->".
+func goEffectiveOpts(pkg string, os []optSpec) string {
+	provs := []blanknodes.StringProvider{fixedProv("p0"), fixedProv("p1"), fixedProv("p2")}
+	var buf bytes.Buffer
+	t := rdf.Triple{Subject: rdf.NewBlankNode(), Predicate: rdf.IRI("a:p"), Object: rdf.Literal{Datatype: vh.XSDString, LexicalForm: "\u00e9"}}
+	if pkg == "nq" {
+		e, _ := nquads.NewEncoder(&buf, nqOptions(os, provs)...)
+		e.AddQuad(context.Background(), rdf.Quad{Triple: t})
+	} else {
+		e, _ := ntriples.NewEncoder(&buf, ntOptions(os, provs)...)
+		e.AddTriple(context.Background(), t)
+	}
+	out := buf.String()
+	a := "0"
+	if strings.Contains(out, "\\u00E9") {
+		a = "1"
+	}
+	p := "-"
+	if strings.HasPrefix(out, "_:p") && len(out) > 3 {
+		p = out[3:4]
+	}
+	return a + " " + p
+}
+
 // ---------------------------------------------------------------- implementation side
 
 func goEncode(pkg string, ascii bool, tbl *vh.BNTable, q vh.GQuad) string {
@@ -58,14 +169,10 @@ func goEncode(pkg string, ascii bool, tbl *vh.BNTable, q vh.GQuad) string {
 	return vh.X(buf.Bytes())
 }
 
-func goEncodeDoc(pkg string, ascii bool, prov blanknodes.StringProvider, tbl *vh.BNTable, qs []vh.GQuad) ([]byte, error) {
+func goEncodeDoc(pkg string, os []optSpec, provs []blanknodes.StringProvider, tbl *vh.BNTable, qs []vh.GQuad) ([]byte, error) {
 	var buf bytes.Buffer
 	if pkg == "nq" {
-		cfg := nquads.EncoderConfig{}.SetASCII(ascii)
-		if prov != nil {
-			cfg = cfg.SetBlankNodeStringProvider(prov)
-		}
-		e, err := nquads.NewEncoder(&buf, cfg)
+		e, err := nquads.NewEncoder(&buf, nqOptions(os, provs)...)
 		if err != nil {
 			return nil, err
 		}
@@ -78,11 +185,7 @@ func goEncodeDoc(pkg string, ascii bool, prov blanknodes.StringProvider, tbl *vh
 			return nil, err
 		}
 	} else {
-		cfg := ntriples.EncoderConfig{}.SetASCII(ascii)
-		if prov != nil {
-			cfg = cfg.SetBlankNodeStringProvider(prov)
-		}
-		e, err := ntriples.NewEncoder(&buf, cfg)
+		e, err := ntriples.NewEncoder(&buf, ntOptions(os, provs)...)
 		if err != nil {
 			return nil, err
 		}
@@ -174,6 +277,19 @@ func (g *gen) add(kind, line, goR string, nontrivial bool) {
 	g.rep.Count("op:" + kind)
 }
 
+func (g *gen) optCases(n int) {
+	for i := 0; i < n; i++ {
+		pkg := vh.Pick(g.r, []string{"nq", "nt"})
+		os := splitOpts(g.r, g.r.Bool(), g.r.Intn(3)-1)
+		if g.r.Chance(30) { // fully random option values
+			for k := range os {
+				os[k] = optSpec{g.r.Intn(3) - 1, g.r.Intn(4) - 1}
+			}
+		}
+		g.add("opts", "nq.opts "+wireOpts(os), goEffectiveOpts(pkg, os), len(os) > 1)
+	}
+}
+
 func (g *gen) encCases(n int) {
 	for i := 0; i < n; i++ {
 		pkg := vh.Pick(g.r, []string{"nq", "nt"})
@@ -230,7 +346,7 @@ func (g *gen) decCases(n int) {
 		pkg := vh.Pick(g.r, []string{"nq", "nt"})
 		tbl := vh.NewBNTable(labelPlain)
 		qs := g.r.Dataset(vh.DatasetOpts{MaxQuads: 3, NBNodes: 3, NIRIs: 3, Graphs: pkg == "nq", IRI: vh.IRIOpts{Exotic: g.r.Chance(30)}})
-		doc, err := goEncodeDoc(pkg, g.r.Bool(), tbl, tbl, qs)
+		doc, err := goEncodeDoc(pkg, splitOpts(g.r, g.r.Bool(), 0), []blanknodes.StringProvider{tbl, tbl}, tbl, qs)
 		if err != nil {
 			continue
 		}
@@ -342,12 +458,13 @@ func (g *gen) oracleOne(pkg string, ascii, custom bool, qs []vh.GQuad, known map
 		tbl := vh.NewBNTable(func(i int) string {
 			return vh.Pick(vh.NewRng(uint64(i)), []string{"x", "a.b", "n-1", "_q", "9"}) + fmt.Sprint(i)
 		})
-		var prov blanknodes.StringProvider
+		prov := -1
 		if custom {
-			prov = tbl
+			prov = g.r.Intn(2)
 		}
-		doc, err := goEncodeDoc(pkg, ascii, prov, tbl, qs)
-		desc := fmt.Sprintf("pkg=%s ascii=%v custom-labels=%v quads=%d doc=%s", pkg, ascii, custom, len(qs), vh.X(doc))
+		os := splitOpts(g.r, ascii, prov)
+		doc, err := goEncodeDoc(pkg, os, []blanknodes.StringProvider{tbl, tbl}, tbl, qs)
+		desc := fmt.Sprintf("pkg=%s ascii=%v custom-labels=%v options=%s quads=%d doc=%s", pkg, ascii, custom, wireOpts(os), len(qs), vh.X(doc))
 		g.rep.Eval("oracle "+desc, len(qs) > 0)
 		g.rep.Count("op:oracle")
 		fail := func(what string) {
@@ -518,6 +635,7 @@ func main() {
 		}
 		if !*nomodel {
 			g.encCases(n)
+			g.optCases(n / 2)
 			g.decCases(n)
 			g.urlCases(n)
 			g.probeRunes(probes)
